@@ -2226,7 +2226,7 @@ impl CharacterDataMut for XmlText {
         } else {
             // a count running past the end deletes to the end
             let count = count.min(self.length() - offset);
-            self.data.borrow_mut().delete(offset, count);
+            self.data.borrow_mut().delete(offset, count)?;
             Ok(())
         }
     }
@@ -2384,7 +2384,7 @@ impl CharacterDataMut for XmlComment {
         } else {
             // a count running past the end deletes to the end
             let count = count.min(self.length() - offset);
-            self.data.borrow_mut().delete(offset, count);
+            self.data.borrow_mut().delete(offset, count)?;
             Ok(())
         }
     }
@@ -2571,7 +2571,7 @@ impl CharacterDataMut for XmlCDataSection {
         } else {
             // a count running past the end deletes to the end
             let count = count.min(self.length() - offset);
-            self.data.borrow_mut().delete(offset, count);
+            self.data.borrow_mut().delete(offset, count)?;
             Ok(())
         }
     }
